@@ -274,7 +274,7 @@ def random_ic(rng, edges):
         base = rng.choice([3.0, 17.25, 0.125, 24.0])
         return {n: base + rng.randrange(0, 6) * base * 2.0 ** -40 for n in nodes}
     if style == 'extreme':
-        return {n: rng.choice([0.0, 5e-324, 1e-300, 4.9e-10, 5e-10, 5.1e-10, 1e300, 1.7976931348623157e308, 2.0 ** 53, 2.0 ** 53 + 2]) for n in nodes}
+        return {n: rng.choice([0.0, 5e-324, 1e-300, 4.9e-10, 5e-10, 5.1e-10, 1e300, 1.7976931348623157e308, 2.0 ** 53, 2.0 ** 53 + 2, float('inf'), float('inf')]) for n in nodes}      # -log(0) of a never-annotated term is inf
     if style == 'random':
         return {n: rng.choice([0.0, 0.5, 1.0, 2.0, 3.5]) for n in nodes}
     subs = {}
